@@ -48,6 +48,13 @@ impl SwiftField for Field54A {
         }
 
         // Parse BIC code
+        // Nothing may follow the BIC line
+        if lines.len() > line_idx + 1 {
+            return Err(ParseError::InvalidFormat {
+                message: "Field 54A has unexpected content after the BIC line".to_string(),
+            });
+        }
+
         let bic = parse_bic(lines[line_idx])?;
 
         Ok(Field54A {
